@@ -968,6 +968,86 @@ def fn_n3_torch(items):
     return {'n': n, 'nt': nt, 'viol': viol, 'extra': extra, 'samples': samples}
 
 
+def _t3_worker(args):
+    """one 12-coin prefix of torch random_clifford(3): {(coins, table bytes): leaves}, leaves, truncated, first invalid table."""
+    prefix, max_extra = args
+    tu = lib.torch_mods()['tu']
+    want_pair = np.zeros((6, 6), dtype=np.int64)
+    for k in range(3):
+        want_pair[2 * k, 2 * k + 1] = want_pair[2 * k + 1, 2 * k] = 1
+    st = {}
+    by = collections.Counter()
+    for a, b, res in explore2(run_torch(lambda: lib.t2n(tu.random_clifford(3)).astype(np.uint8).tobytes()), st, rootA=tuple(prefix), max_a=24 + max_extra):
+        by[(len(a), res)] += 1
+    bad = None
+    for (_, kb) in by:
+        g = np.frombuffer(kb, dtype=np.uint8).reshape(6, 6).astype(np.int64)
+        if g.max() > 1 or not (ref.anti_mat(g) == want_pair).all():
+            bad = g.tolist()
+            break
+    return tuple(prefix), dict(by), st.get('leaves', 0), st.get('truncated', 0), bad
+
+
+def fn_n3_torch_full(items):
+    """item = [max_extra, nproc]: the WHOLE coin tree of torchclifford random_clifford(3) up to 24+max_extra coins, split
+    over the 4096 twelve-coin prefixes and explored by nproc forked workers; the parent adds up, per table, the number of
+    leaves in each coin-length class.  Decided: every leaf a valid table; all |Sp(6,2)| = 1451520 tables occur and, within
+    each coin-length class, equally often; and - independent of how the sampler is organised - no table collects more
+    than 1/|Sp(6,2)| of probability from the explored part of the tree."""
+    import multiprocessing
+    n = nt = 0
+    viol = []
+    extra = {}
+    samples = []
+    for item in items:
+        max_extra, nproc = item
+        prefixes = [(list(bits(k, 12)), max_extra) for k in range(4096)]
+        classes = collections.defaultdict(collections.Counter)
+        leaves = trunc = 0
+        bad = None
+        ctx = multiprocessing.get_context('fork')
+        with ctx.Pool(int(os.environ.get('PCVERIF_NPROC', nproc) or nproc)) as pool:
+            for prefix, by, lv, tr, b in pool.imap_unordered(_t3_worker, prefixes, chunksize=8):
+                leaves += lv
+                trunc += tr
+                if b is not None and bad is None:
+                    bad = (prefix, b)
+                for (cls, kb), c in by.items():
+                    classes[cls][kb] += c
+        n += leaves
+        nt += leaves
+        extra['torch_N3_full_leaves'] = leaves
+        extra['torch_N3_full_truncated_subtrees'] = trunc
+        if bad is not None:
+            viol.append(V('C16/torch/random_clifford/N3/invalid', item, 'torchclifford random_clifford(3) returns a table violating the CCR below the coins %s' % (list(bad[0]),), bad[1]))
+            continue
+        order = dom.SP_ORDER[3]
+        mass = collections.Counter()
+        desc = []
+        ok = True
+        for cls in sorted(classes):
+            cnt = classes[cls]
+            vals = (min(cnt.values()), max(cnt.values()))
+            ok &= (len(cnt) == order and vals[0] == vals[1])
+            desc.append({'coins': cls, 'leaves': int(sum(cnt.values())), 'distinct_tables': len(cnt), 'leaves_per_table_min_max': list(vals)})
+            for kb, c in cnt.items():
+                mass[kb] += c * 2.0 ** -cls
+        explored = float(sum(mass.values()))
+        top, topm = max(mass.items(), key=lambda kv: kv[1])
+        extra['torch_N3_full_explored_mass_ppm'] = int(explored * 1e6)
+        extra['torch_N3_full_distinct_tables'] = len(mass)
+        if topm > (1 + 1e-9) / order:
+            viol.append(V('C16/torch/random_clifford/N3/not-uniform', item,
+                          'torchclifford random_clifford(3): the explored coin strings (mass %.4f) alone give one table probability %.4g > 1/|Sp(6,2)| = %.4g' % (explored, topm, 1.0 / order),
+                          {'table': np.frombuffer(top, dtype=np.uint8).reshape(6, 6).tolist(), 'probability_at_least': topm, 'classes': desc}, 1.0 / order))
+        elif not ok:
+            viol.append(V('C16/torch/random_clifford/N3/not-uniform', item,
+                          'torchclifford random_clifford(3): not all %d tables occur, or they are not drawn equally often within a coin-length class' % order, desc,
+                          '%d distinct tables, equally often in each class' % order))
+        samples.append({'torch random_clifford': 3, 'whole_tree': True, 'classes': desc, 'explored_mass': explored})
+    return {'n': n, 'nt': nt, 'viol': viol, 'extra': extra, 'samples': samples}
+
+
 # ------------------------------------------------------------------ conventions / ownership
 def conventions():
     out = {'rng_ownership': rng.selfcheck()}
@@ -1111,4 +1191,8 @@ def legs(tier):
     out.append(Leg('torch_uniform_N3_subtrees', fn_n3_torch, pairs, chunk=1, exhaustive=False, supplementary=True, timeout=3000, probe=0,
                    bound='torchclifford random_clifford(3): %d of the 2016 subtrees below the first anticommuting pair (g1,g2) (VERIF_SEED rotates which): every leaf a valid table with rows 0,1 = (g1,g2), '
                          '720 distinct tables per subtree equally often within each coin-length class (+%d coins of rejection)' % (len(pairs), 2 if quick else 4)))
+    if not quick:
+        out.append(Leg('torch_uniform_N3_whole_tree', fn_n3_torch_full, [[2, 16]], chunk=1, parallel=False, probe=0, timeout=6 * 3600, src_states=dom.SP_ORDER[3],
+                       bound='torchclifford random_clifford(3): ALL coin strings of 24 and 26 coins (about 23 M leaves, ~17 core-hours, split over the 4096 twelve-coin prefixes and 16 forked workers; '
+                             'explored mass 0.865): every table valid, all 1451520 tables equally often per coin-length class, no table above 1/|Sp(6,2)|'))
     return out
